@@ -34,6 +34,9 @@ def digitsToNat (cs : List Char) : Nat :=
 
 def maxInt : Nat := 9223372036854775807
 
+/-- bsonkit.MaxArrayPadding -/
+def maxArrayPadding : Nat := 1500000
+
 /-- bsonkit.ParseIndex: first byte a digit and strconv.Atoi succeeds (digits only, ≤ MaxInt64). -/
 def parseIndex (s : String) : Option Nat :=
   let cs := s.toList
@@ -163,11 +166,10 @@ def put (v : V) (path : Path) (value : V) (prepend : Bool) : Res (V × V) :=
           else .ok (.doc (fs ++ [(key, nv)]), .missing)
         | .error e => .error e
     | .arr xs =>
-      match atoi key with
+      match parseIndex key with
       | none => .error .err
-      | some index =>
-        if index < 0 || index == (maxInt : Int) then .error .err else   -- math.MaxInt is rejected (index+1 would wrap)
-        let idx := index.toNat
+      | some idx =>
+        if idx == maxInt then .error .err else   -- math.MaxInt is rejected (index+1 would wrap)
         if idx < xs.length then
           match xs[idx]? with
           | some old =>
@@ -177,6 +179,7 @@ def put (v : V) (path : Path) (value : V) (prepend : Bool) : Res (V × V) :=
             | .error e => .error e
           | none => .error .err
         else if value.isMissing then .error .err
+        else if idx - xs.length > maxArrayPadding then .error .err   -- bsonkit.MaxArrayPadding
         else
           match put .missing rest value prepend with
           | .ok (nv, _) =>
